@@ -298,4 +298,22 @@ def main():
 
 
 if __name__ == "__main__":
-    main()
+    import threading
+    sys.setrecursionlimit(1000000)
+    threading.stack_size(1024 * 1024 * 1024)
+    result = {}
+
+    def target():
+        try:
+            main()
+        except SystemExit as e:
+            result["code"] = e.code
+        except BaseException:  # noqa: BLE001
+            import traceback
+            traceback.print_exc()
+            result["code"] = 2
+    th = threading.Thread(target=target)
+    th.start()
+    th.join()
+    sys.stdout.flush()
+    os._exit(result.get("code", 0) or 0)
